@@ -44,6 +44,21 @@ claimed = {
  "C06": dict(design="5/C06",
    text="Bounded symbolic model checking of the HTTP API handlers as a one-step authorisation property: for each endpoint, every credential kind (none, garbage, admin/user/empty-user session, expired, other-instance, tampered) and request-body shape within the bounds, with an arbitrary scripted store behind the real Store interface, a management request reaches the store only if the reference authorisation predicate holds and carries exactly the request's arguments; every other request gets a non-success status, discloses no list and sends no mutating store request; a token is issued only after a successful authentication and names that user and the store-reported flag.",
    note="Trusted: JSON document model honouring the struct tags of the loaded source, ideal AEAD, symbolic clock (lifetime 3 s), harness dispatcher. 'Store unchanged' is established as 'no mutating store request sent'. Routing, HTTP methods and TLS are outside."),
+ "C10": dict(design="5/C10",
+   text="Bounded symbolic model checking of reachable wedge states of the real agent (NewStore with its dispatcher, hooks-runner and upgrader goroutines, executed by a cooperative scheduler in which every block / select choice is a solver-explored decision): (a) queue-state step: from every occupancy 0..10 of the update queue, the dispatcher's authenticate step for an upgradeable login never blocks (upgrades off / local); (b) bounded runs: two concurrent clients, all schedules at blocking points and all select choices, every request is answered and the agent still serves afterwards; (c) the saslauthd accept loop survives temporary accept errors.",
+   note="Trusted: goroutines interact only through channels (no data races), scheduler model (switches at blocking operations; preemption-bounded mode where stated). Outside: select fairness, remote-master stalls beyond queue capacity, more than two clients."),
+ "C11": dict(design="5/C11",
+   text="Bounded symbolic model checking of concurrent histories on the real agent: login(old) racing update(new) under every schedule and select choice, with upgrades off/local - once the change is acknowledged and the agent idle, only the new password works; two concurrent clients among {authenticate right/wrong, update, remove, add} on one user - the responses and the quiescent store state match one of the two sequential orders; two concurrent logins under preemption-bounded (2) fine-grained scheduling each receive their own answer; plus the static single-writer check on the SSA (no goroutine other than the dispatcher reaches the store library).",
+   note="Trusted: as C10. The static check is a supporting (solver-free) analysis of the loaded SSA; schedule counterexamples that the native scheduler does not reproduce within 25 retries are reported as schedule-level."),
+ "C12": dict(design="5/C12",
+   text="Bounded symbolic model checking of hash upgrades through the real agent: a login with the right / wrong / empty password of a user whose record (with auxiliary bytes) is under a non-default or default set, with upgrades off / local; after the agent settles the record is untouched unless an upgrade was due, in which case it is rewritten under the default set for the same password with auxiliary data, extension and admin flag unchanged and is no longer upgradeable.",
+   note="Trusted: as C10/C01. The upgradeable flag itself is checked in C02 (ForeignRecord). Remote upgrade payload is outside (net/http client not encoded)."),
+ "C17": dict(design="5/C17",
+   text="Bounded symbolic model checking of the policy code: condition strings from the stated grammar (menus plus one arbitrary-bytes slot at a time) are accepted iff the reference parser accepts them, with exactly its comparator and threshold, and the verdict on arbitrary integer strengths equals the documented comparison (float comparisons in the SMT FP theory); unknown types and bad conditions are constructor errors; Init / Add / Update through the real agent reach the store only if the policy approves without error, a refusal is an error and changes nothing; NewStore fails on a policy error.",
+   note="Trusted: zxcvbn's scorer replaced by arbitrary strength values; yaml/json document models; ASCII conditions only."),
+ "C18": dict(design="5/C18",
+   text="Bounded symbolic model checking of the configuration loader against a reference validity predicate over the stated configuration space (sets, ids, algorithms, keys, costs, defaults, unknown keys, malformed document), of every accepted parameter set at the edge values (never a panic), and of reload through the real agent (SIGHUP delivered to the registered channel): the agent switches to the complete new configuration iff it loads and its directory passes the check, otherwise the complete previous configuration keeps serving.",
+   note="Trusted: yaml.v3 modelled as a document tree mapped through the struct tags of the loaded source with KnownFields honoured; argon2/scrypt panic/error conditions as in their sources; one reload."),
 }
 NA_DEFAULT = "check not built yet (framework under construction); see DESIGN.md section 5 for the plan"
 na_reason = {}
